@@ -1,6 +1,6 @@
 (* C07: what today's code (the `_current` parameters of the model) violates. Witnesses closed by vm_compute. *)
 From Coq Require Import ZArith List Bool.
-From OG Require Import C07.Model C07.ModelRows C07.ModelPreAgg C07.ModelStats.
+From OG Require Import C07.Model C07.ModelRows C07.ModelPreAgg C07.ModelStats C07.ModelMerge C07.ProofsMerge C07.ProofsMerge2.
 Import ListNotations.
 Open Scope Z_scope.
 
@@ -75,3 +75,11 @@ Proof.
   - exists [[(Some 9218868437227405312, 10); (Some 9218868437227405312, 20)]]. vm_compute. split; reflexivity.
 Qed.
 Print Assumptions C07_stats_sentinel_current_refuted.
+
+(* today's IntegerPreAgg.merge (min / max through float64) is not statistics of the union beyond 2^53: merging a block whose
+   minimum is 2^53 + 1 stores 2^53, a value no row has. Not reachable through today's write path (integers are parsed
+   through float64), therefore an observation and not a finding; props/C07/fix4.patch removes the detour. *)
+Theorem C07_int_merge_via_f64_refuted : exists a b A B,
+  Forall Wp A /\ Forall Wp B /\ is_stat_of a A /\ is_stat_of b B /\ ~ is_stat_of (int_merge via_f64 a b) (A ++ B).
+Proof. exact int_merge_via_f64_refuted. Qed.
+Print Assumptions C07_int_merge_via_f64_refuted.
